@@ -570,11 +570,13 @@ pub struct Reader<'a> {
     pub max_depth: usize,
     /// number of nodes read (for classification)
     pub nodes: usize,
+    /// saw tag 2 or 3 applied to an indefinite-length byte string
+    pub bignum_over_indefinite: bool,
 }
 
 impl<'a> Reader<'a> {
     pub fn new(data: &'a [u8], strict: bool) -> Self {
-        Reader { data, pos: 0, strict, max_depth: 100_000, nodes: 0 }
+        Reader { data, pos: 0, strict, max_depth: 100_000, nodes: 0, bignum_over_indefinite: false }
     }
     fn u8(&mut self) -> Result<u8, ReadError> {
         let b = *self.data.get(self.pos).ok_or(ReadError::Eof)?;
@@ -717,6 +719,9 @@ impl<'a> Reader<'a> {
             }
             6 => {
                 let t = arg.ok_or(ReadError::Malformed("indef tag"))?;
+                if (t == 2 || t == 3) && self.data.get(self.pos) == Some(&0x5f) {
+                    self.bignum_over_indefinite = true;
+                }
                 let inner = self.item(depth + 1)?;
                 Ok(Item::Tag(t, Box::new(inner)))
             }
@@ -774,6 +779,16 @@ pub fn read_lenient(data: &[u8]) -> Result<Item, ReadError> {
         return Err(ReadError::Trailing);
     }
     Ok(i)
+}
+
+/// Whether the (well-formed) input applies tag 2 or 3 to an indefinite-length byte string anywhere
+/// outside byte strings (ciborium reads that as a generic tag but reads its own definite-length
+/// re-encoding as an integer).
+pub fn has_bignum_over_indefinite_bstr(data: &[u8]) -> bool {
+    let mut r = Reader::new(data, false);
+    r.max_depth = 2000;
+    let _ = r.item(0);
+    r.bignum_over_indefinite
 }
 
 /// Lenient reader of a prefix: returns the item and the number of bytes consumed.
